@@ -59,7 +59,7 @@ impl TypeInfo for Documented {
             .variant(
                 Variants::new()
                     .variant("A", |v| v.index(3).docs_always(&["variant A doc"]).fields(Fields::named().field(|f| f.ty::<u8>().name("a").type_name("u8").docs_always(&["field a doc"])).field(|f| f.compact::<u32>().name("b").type_name("u32"))))
-                    .variant("B", |v| v.index(200).docs_always(&["variant B doc", "more"]).fields(Fields::unnamed().field(|f| f.ty::<Vec<Documented>>().type_name("Vec<Documented>").docs_always(&["unnamed doc"]))))
+                    .variant("B", |v| v.index(200).docs_always(&["variant B doc", "more"]).fields(Fields::unnamed().field(|f| f.ty::<Vec<Documented>>().type_name("Vec < Documented >").docs_always(&["unnamed doc"])).field(|f| f.ty::<u64>().type_name("< T as Config > :: Hash , u64 ; 4"))))
                     .variant_unit("C", 7),
             )
     }
